@@ -21,6 +21,7 @@ RULE = ('lists of 0..3 JSON objects built from a value alphabet {0, -1, 2^63-1, 
         '(every pair of cut positions of the written bytes), as file object and through a custom open_obj; plus real files whose '
         'size is stepped so that the 64 KiB read boundary lands on every byte of a 4-byte character and on the newline. '
         'Non-trivial = schedule with at least one short read; states = distinct (compression, cut position class) situations.')
+DEEP_PROBES = ('empty-dict objects; 300 objects; 70 000-character strings (gzip expansion > 512:1); strings containing NaN / Infinity / U+FEFF; files of exactly 65 535 / 65 536 / 65 537 / 131 072 bytes; U+FEFF and a 4-byte character slid across the 64 KiB boundary')
 ASSUMPTIONS = ['objects are dicts (a top-level null line is skipped by load by design)', 'read schedules with at most 2 short reads']
 LEVEL_TEXT = ('Bounded-exhaustive model checking over inputs x read schedules of the real file/codec/framing/JSON chain with the '
               'environment answers (short reads) owned by the harness device.')
